@@ -122,6 +122,8 @@ def draw_centre(rng, cclass):
         ra = 0.0
     elif cclass == "ra360":
         ra = TWO_PI - 10.0 ** rng.uniform(-12, -6)
+    elif cclass == "origin_int":        # ra = 0, dec = 0 written as integers
+        ra, dec = 0, 0
     return ra, dec
 
 
@@ -145,9 +147,9 @@ def gen_positions(rng, job, cra, cdec, r, vertices=None):
     n_int = max(8, nq // 5)
     n_far = max(6, nq // 8)
     b0 = rng.uniform(0, TWO_PI)
-    for k in range(n_int):
+    for k in range(n_int if vertices is None else n_int // 3):
         out.append(("interior",) + offset(cra, cdec, rng.uniform(0, TWO_PI), r * math.sqrt(rng.random()) * 0.999))
-    for k in range(n_ring):
+    for k in range(n_ring if vertices is None else 4):
         out.append(("ring_in",) + offset(cra, cdec, b0 + TWO_PI * k / n_ring, r - keep_in))
     for k in range(n_ring):
         out.append(("ring_out",) + offset(cra, cdec, b0 + TWO_PI * (k + 0.5) / n_ring, far0 + keep_out))
@@ -208,7 +210,7 @@ def edge_normals(vertices):
     return nrm
 
 
-def expected_answer_free_selection(labels, n):
+def thin(labels, n):
     """evenly thin a list of positions (used for scalar calls on big regions)"""
     if len(labels) <= n:
         return list(range(len(labels)))
@@ -219,6 +221,31 @@ def expected_answer_free_selection(labels, n):
 # --------------------------------------------------------------------------
 # driving the real code
 # --------------------------------------------------------------------------
+INT_POS = {"rad": [(0, 0), (1, 0), (0, 1), (3, -1), (6, 1), (5, 0), (2, 1)],
+           "deg": [(0, 0), (0, 90), (0, -90), (10, -30), (359, 0), (1, 1), (180, 45), (300, -60)]}
+
+
+def call_within(reg, ra, dec, degin, form, aslist):
+    """one query call in the given argument form -> list of bool"""
+    if form == "scalar":
+        out = []
+        for a, d in zip(ra, dec):
+            res = np.asarray(reg.sky_within(a, d, degin=degin))
+            if res.shape != (1,):
+                raise RuntimeError("sky_within(scalar) returned shape %r" % (res.shape,))
+            out.append(bool(res[0]))
+        return out
+    if len(ra) == 0:
+        return []
+    if aslist:
+        res = np.asarray(reg.sky_within(list(ra), list(dec), degin=degin))
+    else:
+        res = np.asarray(reg.sky_within(np.array(ra), np.array(dec), degin=degin))
+    if res.shape != (len(ra),):
+        raise RuntimeError("sky_within(vector of %d) returned shape %r" % (len(ra), res.shape))
+    return [bool(x) for x in res]
+
+
 def observe(job):
     from AegeanTools.regions import Region
     cfg = job["cfg"]
@@ -234,59 +261,64 @@ def observe(job):
     rec["r_udeg"] = r_udeg
     cvec = unit(cra, cdec)
     vertices = make_polygon(rng, cra, cdec, r, nv) if nv else None
+    explicit_depth = rng.random() < 0.5
+    aslist = rng.random() < 0.5
     pos = gen_positions(rng, job, cra, cdec, r, vertices)
     if form == "scalar" and job["expected"] > 20000:
-        pos = [pos[i] for i in expected_answer_free_selection(pos, max(40, job["nq"] // 4))]
+        pos = [pos[i] for i in thin(pos, max(24, job["nq"] // 5))]
     labels = [p[0] for p in pos]
-    qra = np.array([p[1] for p in pos])
-    qdec = np.array([p[2] for p in pos])
+    qra = np.array([p[1] for p in pos], dtype=float)
+    qdec = np.array([p[2] for p in pos], dtype=float)
+    # nat = what the code is given (in its unit), q = the same position in radians
     if units == "deg":
-        pra, pdec = np.degrees(qra), np.degrees(qdec)
-        # poles are exact in degrees as well
-        pdec[qdec == math.pi / 2] = 90.0
-        pdec[qdec == -math.pi / 2] = -90.0
-        qra, qdec = np.radians(pra), np.radians(pdec)     # what the code is told, in radians
+        nra, ndec = np.degrees(qra), np.degrees(qdec)
+        ndec[qdec == math.pi / 2] = 90.0          # the poles are exact in degrees as well
+        ndec[qdec == -math.pi / 2] = -90.0
+        qra, qdec = np.radians(nra), np.radians(ndec)
     else:
-        pra, pdec = qra, qdec
-    dist = angdist(cvec, unit(qra, qdec))
+        nra, ndec = qra, qdec
+    nat = [(float(a), float(d)) for a, d in zip(nra, ndec)]
+    # positions written as integers in the unit of the call (passed as Python ints)
+    ipos = INT_POS[units]
+    nat += ipos
+    labels += ["int"] * len(ipos)
+    ira = np.array([p[0] for p in ipos], dtype=float)
+    idec = np.array([p[1] for p in ipos], dtype=float)
+    if units == "deg":
+        ira, idec = np.radians(ira), np.radians(idec)
+    qra, qdec = np.concatenate([qra, ira]), np.concatenate([qdec, idec])
+    isint = np.array([False] * (len(nat) - len(ipos)) + [True] * len(ipos))
+    qvec = unit(qra, qdec)
+    dist = angdist(cvec, qvec)
     # keep the rule's inputs away from its thresholds
     far0 = r + job["margin"] * UDEG
     keep = (np.abs(dist - r) >= max(1e-6 * r, 2 * UDEG)) & (np.abs(dist - far0) >= max(1e-6 * far0, 2 * UDEG))
     edges = None
     if nv:
         nrm = edge_normals(vertices)
-        edges = np.arcsin(np.clip(unit(qra, qdec) @ nrm.T, -1, 1))
+        edges = np.arcsin(np.clip(qvec @ nrm.T, -1, 1))
         keep &= np.all(np.abs(edges) >= max(1e-6 * r, 2 * UDEG), axis=1)
     rec["dropped"] = int(np.sum(~keep))
-    idx = np.nonzero(keep)[0]
-    pra, pdec, dist, labels = pra[idx], pdec[idx], dist[idx], [labels[i] for i in idx]
+    idx = [int(i) for i in np.nonzero(keep)[0]]
+    nat, dist, labels, isint = [nat[i] for i in idx], dist[idx], [labels[i] for i in idx], isint[idx]
     if nv:
         edges = edges[idx]
     degin = units == "deg"
+    nf = int(np.sum(~isint))                      # float-typed positions come first
     try:
         reg = Region(maxdepth=depth)
+        dkw = {"depth": depth} if explicit_depth else {}
         if nv == 0:
             if form == "scalar":
-                reg.add_circles(cra, cdec, r, depth=None if job["s"] % 2 == 0 else depth)
+                reg.add_circles(cra, cdec, r, **dkw)
+            elif cfg["cclass"] == "origin_int":
+                reg.add_circles([cra], [cdec], [r], **dkw)
             else:
-                reg.add_circles(np.array([cra]), np.array([cdec]), np.array([r]))
+                reg.add_circles(np.array([cra]), np.array([cdec]), np.array([r]), **dkw)
         else:
-            reg.add_poly([[a, d] for a, d in vertices], depth=None if job["s"] % 2 == 0 else depth)
-        if form == "scalar":
-            ans = []
-            for a, d in zip(pra, pdec):
-                res = np.asarray(reg.sky_within(float(a), float(d), degin=degin))
-                if res.shape != (1,):
-                    raise RuntimeError("sky_within(scalar) returned shape %r" % (res.shape,))
-                ans.append(bool(res[0]))
-        else:
-            if job["s"] % 2:
-                res = np.asarray(reg.sky_within(list(map(float, pra)), list(map(float, pdec)), degin=degin))
-            else:
-                res = np.asarray(reg.sky_within(pra.copy(), pdec.copy(), degin=degin))
-            if res.shape != (len(pra),):
-                raise RuntimeError("sky_within(vector of %d) returned shape %r" % (len(pra), res.shape))
-            ans = [bool(x) for x in res]
+            reg.add_poly([[a, d] for a, d in vertices], **dkw)
+        ans = call_within(reg, [p[0] for p in nat[:nf]], [p[1] for p in nat[:nf]], degin, form, aslist)
+        ans += call_within(reg, [p[0] for p in nat[nf:]], [p[1] for p in nat[nf:]], degin, form, True)
         if nv == 0:
             a_deg = float(reg.get_area())
             a_sr = float(reg.get_area(degrees=False))
@@ -311,8 +343,9 @@ def observe(job):
     else:
         eu = [[int(max(min(round(x / UDEG), INT_MAX), -INT_MAX)) for x in row] for row in edges]
         rec["queries"] = [[d, a, e] for d, a, e in zip(du, ans, eu)]
-    side = [{"label": l, "ra": float(a).hex(), "dec": float(d).hex(), "degin": degin}
-            for l, a, d in zip(labels, pra, pdec)]
+    side = [{"label": l, "ra": repr(p[0]), "dec": repr(p[1]), "degin": degin, "call": form}
+            for l, p in zip(labels, nat)]
+    rec["centre"] = [repr(cra), repr(cdec)]
     return rec, side
 
 
@@ -429,13 +462,20 @@ def lattice(ctx):
     return pts
 
 
-def drive(ctx, jobs):
+def drive_and_validate(ctx, jobs, block):
+    """drive the real code block-wise (16 processes) and let TLC validate each
+    block while the next one is being produced; yields (recs, side, rejected)"""
     jobs = sorted(jobs, key=lambda j: -j["expected"] * (4 if j["cfg"]["form"] == "scalar" else 1))
+    blocks = list(common.chunks(jobs, block))
     with mp.Pool(16, initializer=_init) as pool:
-        out = pool.map(observe, jobs, chunksize=1 if len(jobs) < 64 else 4)
-    recs = [o[0] for o in out]
-    side = {o[0]["id"]: o[1] for o in out}
-    return recs, side
+        pending = pool.map_async(observe, blocks[0], chunksize=2)
+        for i in range(len(blocks)):
+            out = pending.get()
+            if i + 1 < len(blocks):
+                pending = pool.map_async(observe, blocks[i + 1], chunksize=4)
+            recs = [o[0] for o in out]
+            side = {o[0]["id"]: o[1] for o in out}
+            yield recs, side, validate_all(ctx, recs, "shape_trace_%d" % i, per=300, par=8)
 
 
 def report(ctx, rejected, side, jobsbyid):
@@ -449,8 +489,10 @@ def report(ctx, rejected, side, jobsbyid):
             witness[clause] = {"failing_queries": w["count"], "first": side[rec["id"]][k],
                                "query": rec["queries"][k]}
         detail = {"job": jobsbyid[rec["id"]], "fails": fails, "err": rec["err"], "r_udeg": rec["r_udeg"],
-                  "depth": rec["depth"], "areas": rec.get("areas"), "witness": witness}
-        ctx.violation(key_of(rec, fails), detail)
+                  "depth": rec["depth"], "centre": rec.get("centre"), "areas": rec.get("areas"),
+                  "witness": witness}
+        kinds = sorted({"int" if w["first"]["label"] == "int" else "float" for w in witness.values()})
+        ctx.violation(key_of(rec, fails) + (" positions=" + "+".join(kinds) if kinds else ""), detail)
 
 
 def run(ctx):
@@ -458,7 +500,7 @@ def run(ctx):
     pts = lattice(ctx)
     margins = {p["cfg"]["depth"]: p["margin"] for p in pts}
     selftest(ctx, margins)
-    nseeds = 1 if quick else 5
+    nseeds = 1 if quick else 4
     jobs = []
     for p in pts:
         for s in range(nseeds):
@@ -466,23 +508,29 @@ def run(ctx):
                          "expected": p["expected"], "s": s, "ctxseed": ctx.seed,
                          "nq": 110 if quick else 200})
     jobsbyid = {job_id(j): j for j in jobs}
-    recs, side = drive(ctx, jobs)
-    rejected = validate_all(ctx, recs, "shape_trace", per=300 if quick else 400, par=8)
-    nquery = sum(len(r["queries"]) for r in recs)
-    ctx.count(evaluations=nquery + 2 * sum(1 for r in recs if r["shape"] == "circle"),
-              nontrivial=len({(r["shape"], r["nv"], r["cclass"], r["rnom"], r["units"], r["form"], r["depth"]) for r in recs}),
-              traces=len(recs))
+    nquery = ntraces = ncirc = dropped = 0
+    distinct = set()
+    samples = {}
+    allrej = []
+    for recs, side, rejected in drive_and_validate(ctx, jobs, 1400 if quick else 1600):
+        ntraces += len(recs)
+        nquery += sum(len(r["queries"]) for r in recs)
+        ncirc += sum(1 for r in recs if r["shape"] == "circle" and not r["err"])
+        dropped += sum(r.get("dropped", 0) for r in recs)
+        distinct |= {(r["shape"], r["nv"], r["cclass"], r["rnom"], r["units"], r["form"], r["depth"]) for r in recs}
+        for r in recs:
+            if not r["err"] and r["shape"] not in samples:
+                samples[r["shape"]] = {k: (v[:3] if k == "queries" else v) for k, v in r.items()}
+        allrej.append((rejected, {r["id"]: side[r["id"]] for r, f, w in rejected}))
+    ctx.count(evaluations=nquery + 2 * ncirc, nontrivial=len(distinct), traces=ntraces)
     ctx.cov["rule"] = ("one trace = one region built by add_circles/add_poly and observed by ~%d sky_within queries "
                        "(+2 get_area for circles); evaluations = judged queries + areas; distinct = lattice points "
                        "(centre class, depth, radius class, units, argument form, shape) emitted by TLC" % jobs[0]["nq"])
     ctx.cov["exhaustive"] = False
     ctx.cov["domain"] = {"lattice_points": len(pts), "seeds_per_point": nseeds, "max_expected_pixels": MAXPIX,
-                         "dropped_near_threshold": sum(r.get("dropped", 0) for r in recs)}
-    ex = next(r for r in recs if r["shape"] == "circle" and not r["err"])
-    ctx.sample({k: (v[:4] if k == "queries" else v) for k, v in ex.items()})
-    ex = next((r for r in recs if r["shape"] == "poly" and not r["err"]), None)
-    if ex:
-        ctx.sample({k: (v[:3] if k == "queries" else v) for k, v in ex.items()})
+                         "dropped_near_threshold": dropped}
+    for k in sorted(samples):
+        ctx.sample(samples[k])
     ctx.assumptions += [
         "query positions closer than max(1e-6 relative, 2 udeg) to a decision threshold (r, r+3*PixSize, a polygon edge) are regenerated/dropped",
         "polygons are convex with all vertices on one small circle (so the circumscribed circle is exact), vertex spacing jittered by +-25%, either orientation",
@@ -491,7 +539,8 @@ def run(ctx):
         "add_circles / add_poly receive radians (their documented unit); degrees are exercised through sky_within(degin=True)",
         "region depth = Region(maxdepth=depth) with the shape inserted at that depth (depth=None or depth=maxdepth)",
     ]
-    report(ctx, rejected, side, jobsbyid)
+    for rejected, side in allrej:
+        report(ctx, rejected, side, jobsbyid)
 
 
 def replay(ctx, rec):
